@@ -124,6 +124,41 @@ def _():
     m = PM("'a' not in sys_platform or 'b' not in sys_platform")
     return not m.is_any() and not m.validate({"sys_platform": "ab"}) and m.validate({"sys_platform": "a"})
 
+@w("D36")
+def _():
+    import tempfile, subprocess, pathlib, shutil
+    from poetry.core.vcs.git import Git
+    d = pathlib.Path(tempfile.mkdtemp(prefix="pcv-w-"))
+    try:
+        subprocess.run(["git", "init", "-q", str(d)], check=True)
+        (d / ".gitignore").write_text("*.dat\n"); (d / "\u00efgnored.dat").write_text("x"); (d / "plain.dat").write_text("y")
+        got = Git(d).get_ignored_files(d)
+        return "\u00efgnored.dat" in got and "plain.dat" in got
+    finally:
+        shutil.rmtree(d, ignore_errors=True)
+@w("D19")
+def _():
+    import tempfile, subprocess, pathlib, shutil, zipfile, os, sys
+    d = pathlib.Path(tempfile.mkdtemp(prefix="pcv-w-"))
+    try:
+        for r in ("src_a", "lib_b", "more_c"):
+            (d / r / ("pkg_" + r)).mkdir(parents=True); (d / r / ("pkg_" + r) / "__init__.py").write_text("")
+        (d / "pyproject.toml").write_text('[tool.poetry]\nname="w"\nversion="1.0"\ndescription="d"\nauthors=[]\n'
+            'packages=[{include="pkg_src_a",from="src_a"},{include="pkg_lib_b",from="lib_b"},{include="pkg_more_c",from="more_c"}]\n'
+            '[build-system]\nrequires=["poetry-core"]\nbuild-backend="poetry.core.masonry.api"\n')
+        seen = set()
+        for seed in ("1", "2", "3", "4", "5", "6"):
+            out = d / ("o" + seed); out.mkdir()
+            env = dict(os.environ, PYTHONHASHSEED=seed)
+            subprocess.run([sys.executable, "-c", f"import os; os.chdir({str(d)!r}); from poetry.core.masonry import api; api.build_editable({str(out)!r})"],
+                           check=True, env=env, capture_output=True)
+            whl = next(out.glob("*.whl"))
+            with zipfile.ZipFile(whl) as z:
+                seen.add(z.read("w.pth"))
+        return len(seen) == 1
+    finally:
+        shutil.rmtree(d, ignore_errors=True)
+
 if __name__ == "__main__":
     ids = sys.argv[1:] or list(W)
     bad = 0
